@@ -298,25 +298,29 @@ def moveToGroupEnd (l : List DNode) (i : Nat) : List DNode :=
     let grp := after.takeWhile (·.sid == e.sid)
     l.take i ++ grp ++ [e] ++ after.drop grp.length
 
-/-- the node for `(node, attrs)` at this diff level -/
-def addAt (S : Schema) (out : List DNode) (node : DNode) (a : Attrs) : List DNode :=
+/-- The node for `(node, attrs)` at this diff level.  Second component: `none` — a new node was inserted
+(`lyd_diff_insert_sibling` at the top level re-computes the first sibling); `some (i, j)` — the existing node `i` was
+re-used and now sits at index `j`. -/
+def addAt (S : Schema) (out : List DNode) (node : DNode) (a : Attrs) : List DNode × Option (Nat × Nat) :=
   let existing := if S.isDupInst node.sid then Option.none else findIdxFrom (fun x _ => sameInst S x node) out 0
   match existing with
   | some i =>
     -- an operation on a descendant already created this node (user-ordered instance moved after its content changed)
     match out[i]? with
-    | Option.none => out
+    | Option.none => (out, some (i, i))
     | some e =>
       let e1 := e.setMetas (eraseMeta "operation" e.metas)
       let ks := e1.kids.map fun k =>
         if S.isKey k.sid || (getMeta k "operation").isSome then k else addMeta k "operation" (bs "none")
       let e2 := withAttrs S (e1.setKids ks) a
       let out' := out.set i e2
-      if S.isUserOrd node.sid then moveToGroupEnd out' i else out'
+      if S.isUserOrd node.sid then
+        (moveToGroupEnd out' i, some (i, i + ((out'.drop (i + 1)).takeWhile (·.sid == e2.sid)).length))
+      else (out', some (i, i))
   | Option.none =>
     let recursive := !(a.op == .replace && S.isUserOrd node.sid && S.config node.sid)
     let d := if recursive then dupRec node else dupShallow S node
-    insertBySchema (withAttrs S d a) out
+    (insertBySchema (withAttrs S d a) out, Option.none)
 
 /-! ## one sibling level -/
 
@@ -327,10 +331,21 @@ structure St where
   emitted : Bool := false      -- something was added at this level or below: the enclosing parent copy exists
   side : Bool := true          -- tree of the first operation (true = second)
   fd : Nat := 0                -- how many parent copies the first operation created below this level
+  ptr : Nat := 0               -- top level only: index of the node `*diff` points to (see `St.add`)
   deriving Repr
 
 def St.emit (st : St) (out' : List DNode) (side : Bool) (fd : Nat) : St :=
   if st.emitted then { st with out := out' } else { st with out := out', emitted := true, side := side, fd := fd }
+
+/-- `lyd_diff_add` at this level.  `*diff` is re-computed (first sibling) whenever a node is inserted at the top level, but
+NOT when an existing node is moved behind its fellow instances: if `*diff` pointed to that node it keeps pointing to it, and
+`lyd_diff_siblings` hands out a pointer into the middle of the sibling list (finding F58). -/
+def St.add (S : Schema) (st : St) (node : DNode) (a : Attrs) (side : Bool) : St :=
+  let (out', ev) := addAt S st.out node a
+  let ptr' := match ev with
+    | Option.none => 0
+    | some (i, j) => if st.ptr == i then j else if i < st.ptr && st.ptr ≤ j then st.ptr - 1 else st.ptr
+  { st.emit out' side 0 with ptr := ptr' }
 
 /-- does `lyd_diff_add` put `yang:operation=none` on a freshly created parent copy?  Only on the topmost newly created
 parent, and — when some ancestor already exists in the diff — only if that parent is the direct parent of the added
@@ -346,7 +361,7 @@ def wrapParent (S : Schema) (top : Bool) (st : St) (a b : DNode) (sub : St) : St
   let hdr := dupShallow S src
   let metas : List Meta := if noneOnParent top st.emitted sub.fd then [("operation", bs "none")] else []
   let p := DNode.inner hdr.sid { hdr.flags with dflt := hdr.flags.dflt && sub.out.all (·.flags.dflt) } metas (hdr.kids ++ sub.out)
-  st.emit (insertBySchema p st.out) sub.side (sub.fd + 1)
+  { st.emit (insertBySchema p st.out) sub.side (sub.fd + 1) with ptr := 0 }
 
 /-- `lyd_diff_siblings_r(first, second, options, 0, diff)` for one sibling level; `top`: the level of the diff roots -/
 def diffSiblings (S : Schema) (defaults : Bool) : (fuel : Nat) → (top : Bool) → (first second : List DNode) → St
@@ -367,15 +382,15 @@ def diffSiblings (S : Schema) (defaults : Bool) : (fuel : Nat) → (top : Bool) 
             let (atrO, item') := userordAttrs S defaults first second item (some i) Option.none
             let st := { st with uo := uoSet st.uo item' }
             match atrO with
-            | some atr => st.emit (addAt S st.out a atr) false 0
+            | some atr => st.add S a atr false
             | Option.none => st
           | some _ => { st with uo := uoSet st.uo item }
         else
           match plainAttrs S defaults (some a) (m.bind (second[·]?)) with
           | some atr =>
-            if atr.op == .delete then st.emit (addAt S st.out a atr) false 0
+            if atr.op == .delete then st.add S a atr false
             else match m.bind (second[·]?) with
-              | some b => st.emit (addAt S st.out b atr) true 0
+              | some b => st.add S b atr true
               | Option.none => st
           | Option.none => st
       match m.bind (second[·]?) with
@@ -395,15 +410,25 @@ def diffSiblings (S : Schema) (defaults : Bool) : (fuel : Nat) → (top : Bool) 
         let (atrO, item') := userordAttrs S defaults first second item m (some j)
         let st := { st with uo := uoSet st.uo item' }
         match atrO with
-        | some atr => st.emit (addAt S st.out b atr) true 0
+        | some atr => st.add S b atr true
         | Option.none => st
       else
         match m with
-        | Option.none => st.emit (addAt S st.out b { op := .create }) true 0
+        | Option.none => st.add S b { op := .create } true
         | some _ => st) st1
 
-/-- `lyd_diff_siblings(first, second, options, &diff)` -/
+/-- `lyd_diff_siblings(first, second, options, &diff)`: all diff siblings, and the index of the one `*diff` points to -/
+def diffFull (S : Schema) (defaults : Bool) (first second : List DNode) : List DNode × Nat :=
+  let st := diffSiblings S defaults (Nat.max (heightL first) (heightL second) + 1) true first second
+  (st.out, st.ptr)
+
+/-- the diff tree (what `lyd_print_all` / a walk from the first sibling sees) -/
 def diff (S : Schema) (defaults : Bool) (first second : List DNode) : List DNode :=
-  (diffSiblings S defaults (Nat.max (heightL first) (heightL second) + 1) true first second).out
+  (diffFull S defaults first second).1
+
+/-- the diff as `lyd_diff_apply_all(&data, diff)` walks it: from `*diff` on -/
+def diffFromPtr (S : Schema) (defaults : Bool) (first second : List DNode) : List DNode :=
+  let r := diffFull S defaults first second
+  r.1.drop r.2
 
 end LyModel.Diff
